@@ -496,6 +496,32 @@ theorem hooksAsync_snd_queue (u : UEnv) (m : Machine) (e : Ev) (s : St) :
   unfold enqueueQ; split <;> simp
 
 -- ---------------------------------------------------------------------------------------------
+-- completion ends the macrostep: the `break` at the top of `_process_event`'s loop
+-- ---------------------------------------------------------------------------------------------
+
+theorem finished_iff (st : String) : finished st = true ↔ st ≠ "running" ∧ st ≠ "uninitialized" := by
+  unfold finished; simp
+
+theorem finished_done : finished "done" = true := by decide
+
+/-- `processEvent` from a finished state: selection still happens (it precedes the loop), no selected
+    transition executes -/
+theorem processEvent_finished (h : Hooks) (fl : Flavor) (m : Machine) (u : UEnv) (ev : Ev) (s : St)
+    (hf : finished s.status = true) (sel : List Cand)
+    (hs : selectTransitions m s.cfg (u.genv s.ctx ev.type) ev = .ok sel) :
+    processEvent h fl m u ev s = s := by
+  rw [processEvent_peFold h fl m u ev s hs]
+  exact peFold_finished h fl m ev _ sel s hf
+
+/-- the loop is cut at the candidate after which the machine is finished -/
+theorem peFold_cut (h : Hooks) (fl : Flavor) (m : Machine) (ev : Ev) (n : Nat) (pre post : List Cand)
+    (c : Cand) (s : St) (hf : finished ((pre ++ [c]).foldl (peStep h fl m ev n) s).status = true) :
+    (pre ++ c :: post).foldl (peStep h fl m ev n) s = (pre ++ [c]).foldl (peStep h fl m ev n) s := by
+  have : pre ++ c :: post = (pre ++ [c]) ++ post := by simp
+  rw [this, List.foldl_append]
+  exact peFold_finished h fl m ev n post _ hf
+
+-- ---------------------------------------------------------------------------------------------
 -- small machines for the examples in `Xsm/Properties/C10.lean`
 -- ---------------------------------------------------------------------------------------------
 namespace Ex
@@ -579,6 +605,33 @@ def goM : Machine :=
     root := .mk (mkD .compound (some "a")) [
       ("a", .mk (mkD .atomic none none [] [("GO", [goT])]) []),
       ("f", .mk (mkD .final none none ["bye"]) [])] }
+
+/-
+the witness of finding F26 (`findings/F26_transitions_after_completion.json`):
+m (compound, initial p)   on D -> #m.p.r1.b  / tr::D:0
+├─ f (final)  entry en:f, exit ex:f
+└─ p (parallel)
+   ├─ r1 (compound): a, b
+   └─ r2 (compound): x   on D -> #m.f  / tr:p.r2.x:D:0
+-/
+def f26RootT : Trans :=
+  { tid := 0, event := "D", target := some "#m.p.r1.b", guard := none, actions := [{ type := "tr::D:0" }],
+    reenter := false, forbidden := false }
+def f26XT : Trans :=
+  { tid := 1, event := "D", target := some "#m.f", guard := none, actions := [{ type := "tr:p.r2.x:D:0" }],
+    reenter := false, forbidden := false }
+def f26M : Machine :=
+  { id := "m", maxIterations := 10, customIds := [],
+    root := .mk (mkD .compound (some "p") none [] [("D", [f26RootT])]) [
+      ("f", .mk { mkD .final none none ["en:f"] with exit := [{ type := "ex:f" }] } []),
+      ("p", .mk (mkD .parallel) [
+        ("r1", .mk (mkD .compound (some "a")) [("a", atom), ("b", atom)]),
+        ("r2", .mk (mkD .compound (some "x")) [("x", .mk (mkD .atomic none none [] [("D", [f26XT])]) [])])])] }
+/-- the configuration after `start()` -/
+def f26S : St :=
+  { cfg := [[], ["p"], ["p", "r1"], ["p", "r1", "a"], ["p", "r2"], ["p", "r2", "x"]], status := "running" }
+/-- the two candidates event `D` selects there, in execution order (deepest source first) -/
+def f26Sel : List Cand := [⟨["p", "r2", "x"], f26XT⟩, ⟨[], f26RootT⟩]
 
 /-- user code: every guard true, every action a marker that succeeds -/
 def exU : UEnv := { g := fun _ _ _ => .t, a := fun _ c _ => .ok c }
